@@ -300,7 +300,7 @@ PROPS["C03"] = {
     "compare_model": c03_compare_model,
     "compare_spec": c03_compare_spec,
     "nontrivial": lambda il, meta: any(l.startswith("E NoFragmentsCycle") for l in il) or len(meta.get("doc", "")) > 400,
-    "partial": "real stack depth and wall-clock time are outside the model: the theorems give termination of the model (fuel bounds), the harness measures the implementation in child processes",
+    "partial": "real stack depth and wall-clock time are outside the model: the theorems give termination of the model for every rule, plan and document (fuel bounds, merge rule included), the harness measures the implementation in child processes",
 }
 
 
@@ -385,7 +385,7 @@ PROPS["C14"] = {
     # the property relates two runs of the implementation: a DIFF line is a violation by itself
     "impl_oracle": lambda il: not any(l in ("VERDICT DIFF", "RULES DIFF") for l in il),
     "nontrivial": lambda il, meta: any("reject" in l for l in il[:1]) or meta.get("note") in ("inline-spread", "wrap-inline"),
-    "partial": "the external printer (Display of documents) is outside the model; the invariance theorems are about the specification predicates and the model, the implementation is compared run against run",
+    "partial": "the external printer (Display of documents) is outside the model; theorems: permutations (definitions, selections, arguments, variable definitions, inside the schema), renaming of operations and aliases; fragment / variable renaming, wrapping, inlining and re-printing are compared run against run on the implementation",
 }
 
 
@@ -436,11 +436,11 @@ def c20_compare_spec(il, sl, meta, exempt):
 
 
 PROPS["C20"] = {
-    "rule": "for every pool schema and both optional-member policies (absent members written as null / left out): the spec-conformant introspection result rendered from the schema; 8 structural mutations of it at random positions (remove a member, change a kind tag, wrong JSON type, duplicate a member, null a required member, extra unknown member, reorder members, strings with 1..4-byte characters / escapes / control characters in descriptions and deprecation reasons); hand-made edge cases; the bundled real-world results (product; thorough: github, shopify). Implementation: parse_introspection_from_string, then parse_introspection through readers delivering 1, 2, 3, 4, 5, 7, 13, 4096 and all bytes per read (outcome must equal the string parse), readers failing at byte offsets across the input (must give Err, no panic), serialise + parse again (same structure). Compared: Ok/Err and the parsed structure as a JSON tree (serde_json::to_value) with the extracted model's decode_query/encode_query, and for pristine rendered results with the specification's abstract_normal pol s. distinct = distinct JSON texts; non-trivial = parses Ok and has at least 5 types, or is a mutated result that is rejected",
+    "rule": "for every pool schema and both optional-member policies (absent members written as null / left out): the spec-conformant introspection result rendered from the schema; 8 structural mutations of it at random positions (remove a member, change a kind tag, wrong JSON type, duplicate a member, null a required member, extra unknown member, reorder members, strings with 1..4-byte characters / escapes / control characters in descriptions and deprecation reasons); hand-made edge cases; the bundled real-world results (product; thorough: github, shopify). Implementation: parse_introspection_from_string, then parse_introspection through readers delivering 1, 2, 3, 4, 5, 7, 13, 4096 and all bytes per read (outcome must equal the string parse), readers failing at every byte offset for inputs up to 1500 bytes, at 1500 (inputs over 20000 bytes: 40) evenly spaced offsets beyond (must give Err, no panic), serialise + parse again (same structure). Compared: Ok/Err and the parsed structure as a JSON tree (serde_json::to_value) with the extracted model's decode_query/encode_query, and for pristine rendered results with the specification's abstract_normal pol s. distinct = distinct JSON texts; non-trivial = parses Ok and has at least 5 types, or is a mutated result that is rejected",
     "compare_model": c20_compare_model,
     "compare_spec": c20_compare_spec,
     "impl_oracle": no_bad_lines,
     "nontrivial": lambda il, meta: (bool(il) and il[0] == "OK" and meta.get("doc", "").count('"kind":"OBJECT"') + meta.get("doc", "").count('"kind":"SCALAR"') >= 5) or (bool(il) and il[0] == "ERR" and meta.get("family", "").startswith("mutated")),
-    "partial": "byte-level JSON reading, reader chunking and injected I/O errors are serde_json's and are exercised on the implementation only (CHUNKS / FAULTS lines, implementation-side assertion); the theorems are about JSON trees: round trip, losslessness of the rendered result of every well-formed schema, recovery of every listed detail, no duplicate keys; rejection of misshapen trees is proved for the outermost two levels only (C20_shape_partial); Float default values are exempt from the oracle (printed differently by design of the oracle's printer)",
+    "partial": "byte-level JSON reading, reader chunking and injected I/O errors are serde_json's and are exercised on the implementation only (CHUNKS / FAULTS lines, implementation-side assertion); the theorems are about JSON trees: round trip, losslessness of the rendered result of every well-formed schema, recovery of every listed detail, no duplicate keys; acceptance is characterised at every level (C20_decode_iff_shape) with the five rejection corollaries; invariance under member order / unknown members is proved for a typed relation (C20_invariance_partial: member order inside default VALUES matters, closed counterexample); Float default values are exempt from the oracle (printed differently by design of the oracle's printer)",
     "trusted_extra": ["serde / serde_json derive behaviour (struct-from-object, struct-from-array, internally tagged enums incl. integer tags in buffered content, Option, duplicate keys) as modelled in theories/Introspection.v from probes of serde 1.0.215 / serde_json 1.0.132; tied by the correspondence run on every check"],
 }
